@@ -392,7 +392,9 @@ func (w *c05World) ask(t *testing.T, q c05Query, id int, beh int) c05Event {
 			ev.ExpRc = 99
 		}
 		if xerr != nil {
-			ev.Content = "socket-error"
+			// no (decodable) reply within the client's patience: nothing to attribute; whether every
+			// query is answered is C01's business
+			ev.ExpRc, ev.Content, ev.Written = 99, "none", false
 		}
 		return ev
 	}
